@@ -21,6 +21,27 @@ Definition show (r : option tvsplit) (b : nat) (order : list nat) :=
   | Some s => Some (zl (train s), zl (val s), zll (epoch b order), Z.of_nat (batcher_len b s),
                     zll (val_batches b s), Z.of_nat (val_len b s))
   end.
+From QV.model Require Import C09_Model_Ext.
+(* round 3: several epochs per batcher, batch_size=None, has_validation, the rng draws; explicit indices *)
+Definition show_x (n : nat) (bo : option nat) (ratio : float) (random shuffle : bool) (perm : list nat)
+           (orders : list (list nat)) (seen : list (list (list Z))) :=
+  match split_of_glue n ratio random perm with
+  | None => None
+  | Some s =>
+    let b := bsz n bo in
+    Some ((if list_eq_dec (list_eq_dec (list_eq_dec Z.eq_dec)) (map (fun o => zll (epoch b o)) orders) seen then true else false),
+          has_validation s,
+          zl (init_draws n ratio random ++ (if shuffle then map (fun _ => length (train s)) (perm :: orders) else [])))
+  end.
+Definition show_e (tr va : option (list nat)) (bo : option nat) (n : nat) (orders : list (list nat)) :=
+  match split_explicit tr va with
+  | inl _ => inl 2%nat
+  | inr None => inl 0%nat
+  | inr (Some s) =>
+    let b := bsz n bo in
+    inr (zl (train s), zl (val s), map (fun o => zll (epoch b o)) orders, Z.of_nat (batcher_len b s),
+         zll (val_batches b s), Z.of_nat (val_len b s), has_validation s)
+  end.
 Definition showe {A} (r : err + A) : (nat + A) :=
   match r with inl ErrRuntime => inl 1%nat | inl ErrValue => inl 2%nat | inl ErrZeroDiv => inl 3%nat | inr x => inr x end.
 """
@@ -40,6 +61,9 @@ def _rec_gen(seed):
     return RecGen(seed)
 
 
+N_EPOCHS = 2
+
+
 def run_batcher_case(case):
     """run the real SimpleBatcher; returns observables + the permutations it drew"""
     from quantem.diffractive_imaging.ptycho_utils import SimpleBatcher
@@ -56,10 +80,51 @@ def run_batcher_case(case):
     epoch = [x.tolist() for x in sb]
     order = g.log[n_perm_init] if shuffle else train
     vb = [x.tolist() for x in sb.iter_val()]
-    return {
+    obs = {
         "train": train, "val": val, "epoch": epoch, "len": len(sb), "vb": vb, "val_len": sb.val_len(),
         "perm": g.log[0] if n_perm_init else [], "order": order,
     }
+    # round 3: further epochs of the SAME batcher (validation iterated in between and twice), the split is
+    # fixed for its lifetime, has_validation, every permutation drawn from the generator
+    epochs, orders = [epoch], [order]
+    for e in range(1, N_EPOCHS):
+        it = iter(sb)
+        first = next(it, None)
+        mid = [x.tolist() for x in sb.iter_val()]            # validation pass in the middle of an epoch
+        ep = ([] if first is None else [first.tolist()]) + [x.tolist() for x in it]
+        epochs.append(ep)
+        orders.append(g.log[n_perm_init + e] if shuffle and len(g.log) > n_perm_init + e else train)
+        if mid != vb:
+            obs["val_changed"] = [vb, mid]
+    obs["epochs"] = epochs
+    obs["orders"] = orders
+    obs["has_validation"] = bool(sb.has_validation)
+    obs["draws"] = [len(p) for p in g.log]
+    obs["split_after"] = [sb.train_indices.tolist(), sb.val_indices.tolist()]
+    obs["len_after"] = [len(sb), sb.val_len()]
+    return obs
+
+
+def run_explicit_case(case):
+    """SimpleBatcher(num, b, shuffle, rng, train_indices=…, val_indices=…)"""
+    from quantem.diffractive_imaging.ptycho_utils import SimpleBatcher
+    n, b, tr, va, seed, shuffle = case
+    g = _rec_gen(seed)
+    try:
+        sb = SimpleBatcher(n, b, shuffle, g, 0.3, "random",
+                           train_indices=None if tr is None else np.array(tr, dtype=int),
+                           val_indices=None if va is None else np.array(va, dtype=int))
+    except ValueError:
+        return {"err": "ValueError"}
+    if tr is None and va is None:
+        return {"fallthrough": True}
+    epochs, orders = [], []
+    for e in range(2):
+        epochs.append([x.tolist() for x in sb])
+        orders.append(g.log[e] if shuffle and len(g.log) > e else sb.train_indices.tolist())
+    return {"train": sb.train_indices.tolist(), "val": sb.val_indices.tolist(), "epochs": epochs, "orders": orders,
+            "len": len(sb), "vb": [x.tolist() for x in sb.iter_val()], "val_len": sb.val_len(),
+            "has_validation": bool(sb.has_validation), "draws": [len(p) for p in g.log]}
 
 
 def oracle_batcher(case, obs):
@@ -83,6 +148,38 @@ def oracle_batcher(case, obs):
         return "val_len() = %d but %d validation batches were yielded" % (obs["val_len"], len(obs["vb"]))
     if any(len(bt) == 0 for bt in obs["epoch"] + obs["vb"]):
         return "an empty batch was yielded"
+    # round 3: every further epoch, split fixed for the lifetime of the batcher, batch sizes
+    beff = n if case[1] is None else case[1]
+    for e, ep in enumerate(obs.get("epochs", [])):
+        if sorted(i for bt in ep for i in bt) != sorted(obs["train"]):
+            return "epoch %d does not visit every training pattern exactly once: batches=%s train=%s" % (e, ep, obs["train"])
+        if len(ep) != obs["len"]:
+            return "__len__ = %d but epoch %d yielded %d batches" % (obs["len"], e, len(ep))
+        if any(len(bt) == 0 or len(bt) > beff for bt in ep):
+            return "epoch %d yielded an empty or oversized batch (batch size %d): %s" % (e, beff, ep)
+    if "val_changed" in obs:
+        return "validation batches changed during the lifetime of the batcher: %s" % (obs["val_changed"],)
+    if "split_after" in obs and obs["split_after"] != [obs["train"], obs["val"]]:
+        return "the train/validation split changed during the lifetime of the batcher"
+    if "len_after" in obs and obs["len_after"] != [obs["len"], obs["val_len"]]:
+        return "__len__/val_len changed during the lifetime of the batcher"
+    if "has_validation" in obs and obs["has_validation"] != (len(obs["val"]) > 0):
+        return "has_validation = %s with %d validation patterns" % (obs["has_validation"], len(obs["val"]))
+    return None
+
+
+def oracle_explicit(case, obs):
+    n, b, tr, va, seed, shuffle = case
+    if "err" in obs or "fallthrough" in obs:
+        return None
+    beff = n if b is None else b
+    for e, ep in enumerate(obs["epochs"]):
+        if sorted(i for bt in ep for i in bt) != sorted(tr):
+            return "explicit indices: epoch %d does not visit the given training patterns exactly once" % e
+        if len(ep) != obs["len"] or any(len(bt) == 0 or len(bt) > beff for bt in ep):
+            return "explicit indices: epoch %d yields %d batches (%s), __len__ = %d" % (e, len(ep), ep, obs["len"])
+    if [i for bt in obs["vb"] for i in bt] != list(va) or len(obs["vb"]) != obs["val_len"]:
+        return "explicit indices: validation batches %s do not go through %s once / val_len %d" % (obs["vb"], va, obs["val_len"])
     return None
 
 
@@ -98,13 +195,13 @@ def gen_batcher_cases(ctx: Ctx):
     nmax = ctx.budget(14, 40)
     for n in range(1, nmax + 1):
         for ratio in ratios:
-            b = r.choice([1, 2, 3, max(1, n // 2), n, n + 3, r.randint(1, n + 3)])
+            b = r.choice([1, 2, 3, max(1, n // 2), n, n + 3, r.randint(1, n + 3), None])
             mode = r.choice(["grid", "random"])
             cases.append((n, b, ratio, mode, r.randrange(1 << 30), r.random() < 0.7))
     # random stream
     for _ in range(ctx.budget(400, 6000)):
         n = r.choice([r.randint(1, 30), r.randint(1, 120), r.randint(100, 400)])
-        b = r.choice([1, r.randint(1, n + 3), r.randint(1, max(1, n // 3)), n, n + 1])
+        b = r.choice([1, r.randint(1, n + 3), r.randint(1, max(1, n // 3)), n, n + 1, None])
         ratio = r.choice([r.random(), r.random() * 0.5, r.choice(ratios), r.randint(0, n) / n,
                           (r.randint(0, 2 * n) + 0.5) / (2 * n) % 1.0])
         mode = r.choice(["grid", "random"])
@@ -122,8 +219,37 @@ def batcher_expr(case, obs):
     n, b, ratio, mode, seed, shuffle = case
     perm = obs.get("perm", [])
     order = obs.get("order", [])
-    return "show (split_of_ratio %s %s %s %s) %s %s" % (
-        cnat(n), cfloat(ratio), cbool(mode == "random"), cnl(perm), cnat(b), cnl(order))
+    base = "show (split_of_ratio %s %s %s %s) %s %s" % (
+        cnat(n), cfloat(ratio), cbool(mode == "random"), cnl(perm), cnat(n if b is None else b), cnl(order))
+    zlist = lambda l: "[" + "; ".join("%d" % x for x in l) + "]"
+    ext = "show_x %s %s %s %s %s %s [%s] [%s]%%Z" % (
+        cnat(n), copt(b, cnat), cfloat(ratio), cbool(mode == "random"), cbool(shuffle), cnl(perm),
+        "; ".join(cnl(o) for o in obs.get("orders", [])[1:]),
+        "; ".join("[" + "; ".join(zlist(bt) for bt in ep) + "]" for ep in obs.get("epochs", [])[1:]))
+    return "(%s, %s)" % (base, ext)
+
+
+def explicit_expr(case, obs):
+    n, b, tr, va, seed, shuffle = case
+    return "show_e %s %s %s %s [%s]" % (copt(tr, cnl), copt(va, cnl), copt(b, cnat), cnat(n),
+                                        "; ".join(cnl(o) for o in obs.get("orders", [])))
+
+
+def gen_explicit_cases(ctx: Ctx):
+    r = ctx.rng
+    cases = [(5, 2, [0, 1, 2], None, 1, True), (5, 2, None, [3, 4], 1, True), (5, 2, None, None, 1, True)]
+    for _ in range(ctx.budget(40, 400)):
+        n = r.randint(1, 30)
+        idx = list(range(n))
+        r.shuffle(idx)
+        k = r.randint(0, n)
+        tr, va = idx[:k], idx[k:]
+        if r.random() < 0.3:
+            tr = sorted(tr)
+        if r.random() < 0.2:       # user lists need not be a partition
+            va = va[: len(va) // 2]
+        cases.append((n, r.choice([1, 2, 3, n, n + 2, None, r.randint(1, n + 1)]), tr, va, r.randrange(1 << 30), r.random() < 0.7))
+    return cases
 
 
 def check_batcher(ctx: Ctx):
@@ -135,7 +261,7 @@ def check_batcher(ctx: Ctx):
         ctx.dist("batcher/mode=%s" % mode)
         ctx.dist("batcher/ratio_zone=%s" % ("out" if not (0 <= ratio < 1) else "0" if ratio == 0 else
                                              "<=.5" if ratio <= 0.5 else ">.5"))
-        ctx.dist("batcher/b_vs_train=%s" % ("err" if "err" in obs else "b>=train" if b >= len(obs["train"]) else
+        ctx.dist("batcher/b_vs_train=%s" % ("err" if "err" in obs else "None" if b is None else "b>=train" if b >= len(obs["train"]) else
                                              "divides" if len(obs["train"]) % b == 0 else "nondividing"))
         nontrivial = "err" not in obs and len(obs["val"]) > 0 and len(obs["epoch"]) > 1
         ctx.count(("batcher",) + tuple(case[:4]) + (tuple(obs.get("order", [])),), nontrivial=nontrivial)
@@ -148,14 +274,20 @@ def check_batcher(ctx: Ctx):
     vals = ctx.coq_eval("batcher", PRE, exprs, shard=50)
     nd = 0
     for case, obs, v in zip(keep, obs_all, vals):
+        v, vx = v
         if "err" in obs:
-            ok = v is None
+            ok = v is None and vx is None
             mv = v
         else:
             assert isinstance(v, tuple) and v[0] == "Some", v
             tr, va, ep, ln, vb, vl = v[1]
             mv = {"train": tr, "val": va, "epoch": ep, "len": ln, "vb": vb, "val_len": vl}
             ok = all(mv[k] == obs[k] for k in mv)
+            if vx is None:
+                ok = False
+            else:      # every epoch, has_validation, the sizes of all permutations drawn from the generator
+                mv["further_epochs_agree"], mv["has_validation"], mv["draws"] = vx[1]
+                ok = ok and mv["further_epochs_agree"] is True and all(mv[k] == obs[k] for k in ("has_validation", "draws"))
         ctx.cov["traces_validated_against_impl"] += 1
         if not ok:
             nd += 1
@@ -166,7 +298,35 @@ def check_batcher(ctx: Ctx):
                           {"kind": "batcher", "case": list(case), "impl": obs, "model": mv},
                           found_input=oracle_batcher(case, obs) is not None)
     ctx.sample({"kind": "batcher", "case": list(keep[len(keep) // 2]), "impl": obs_all[len(keep) // 2]})
-    ctx.log("batcher: %d cases, %d disagreements" % (len(keep), nd))
+    ctx.log("batcher: %d cases (x %d epochs each), %d disagreements" % (len(keep), N_EPOCHS, nd))
+    # explicit train / validation indices
+    ecases = gen_explicit_cases(ctx)
+    eobs = [run_explicit_case(c) for c in ecases]
+    for c, o in zip(ecases, eobs):
+        ctx.dist("batcher/explicit=%s" % ("err" if "err" in o else "fallthrough" if "fallthrough" in o else "ok"))
+        ctx.count(("explicit", c[0], c[1], tuple(c[2] or ()), tuple(c[3] or ()), tuple(map(tuple, o.get("orders", [])))),
+                  nontrivial="epochs" in o and len(o["epochs"][0]) > 1)
+        bad = oracle_explicit(c, o)
+        if bad:
+            ctx.violation("batcher-explicit-oracle", bad, {"kind": "explicit", "case": list(c), "impl": o})
+    evals = ctx.coq_eval("explicit", PRE, [explicit_expr(c, o) for c, o in zip(ecases, eobs)], shard=80)
+    ne = 0
+    for c, o, v in zip(ecases, eobs, evals):
+        ctx.cov["traces_validated_against_impl"] += 1
+        if "err" in o:
+            ok = v == ("inl", 2)
+        elif "fallthrough" in o:
+            ok = v == ("inl", 0)
+        else:
+            ok = v[0] == "inr" and list(v[1]) == [o["train"], o["val"], o["epochs"], o["len"], o["vb"], o["val_len"], o["has_validation"]]
+        if not ok:
+            ne += 1
+            ctx.cov["disagreements_checked"] += 1
+            ctx.violation("batcher-correspondence",
+                          "SimpleBatcher with explicit indices and the model disagree on (n,b,train,val,seed,shuffle)=%s" % (c,),
+                          {"kind": "explicit", "case": list(c), "impl": o, "model": repr(v)},
+                          found_input=oracle_explicit(c, o) is not None)
+    ctx.log("batcher with explicit indices: %d cases, %d disagreements" % (len(ecases), ne))
 
 
 def run_generate_case(c):
@@ -260,9 +420,15 @@ def check_toy_recon(ctx: Ctx):
     """loss scaling / gradients for divisor batch sizes, same-seed determinism, reset — on the
     real reconstruction (validated, float tolerance) and the reset field list vs the model"""
     from .. import toy_ptycho as tp
+    from .. import c09_toy
+    c09_toy.setup()
     res = tp.c09_recon_checks(ctx)
     for key, what, replay in res:
         ctx.violation(key, what, replay)
+    # round 3: RNGMixin state machine, schedule inside reconstruct, per-batch loss tie, determinism / reset variants,
+    # reset_recon field by field (harness/c09_toy.py)
+    for key, what, replay, found in c09_toy.all_checks(ctx):
+        ctx.violation(key, what, replay, found_input=found)
 
 
 def run(ctx: Ctx):
@@ -309,6 +475,12 @@ def replay(ctx: Ctx, path):
         print("impl:", obs)
         print("model:", v)
         print("oracle:", bad or "property holds on this case")
+        return 1 if bad else 0
+    if rp.get("kind") == "explicit":
+        c = tuple(rp["case"])
+        obs = run_explicit_case(c)
+        bad = oracle_explicit(c, obs)
+        print("impl:", obs, "oracle:", bad or "ok")
         return 1 if bad else 0
     if rp.get("kind") == "generate":
         c = tuple(rp["case"])
